@@ -173,6 +173,19 @@ def write_cfg(name, text):
     return p
 
 
+def _np(o):
+    import numpy as np
+    if isinstance(o, np.bool_):
+        return bool(o)
+    if isinstance(o, np.integer):
+        return int(o)
+    if isinstance(o, np.floating):
+        return float(o)
+    if isinstance(o, np.ndarray):
+        return o.tolist()
+    raise TypeError(type(o))
+
+
 def validate_traces(module, cfg, records, workdir, shards=16, timeout=3600, env=None, tag='trace'):
     """C->S: write records (list of dicts) as ndjson shards, run one TLC per shard (-workers 1),
     return (n_accepted, bads, states, transitions).  bads carry the global record index 'idx'
@@ -191,7 +204,7 @@ def validate_traces(module, cfg, records, workdir, shards=16, timeout=3600, env=
         path = os.path.join(workdir, '%s_%02d.ndjson' % (tag, s))
         with open(path, 'w') as f:
             for r in chunk:
-                f.write(json.dumps(r, separators=(',', ':')) + '\n')
+                f.write(json.dumps(r, separators=(',', ':'), default=_np) + '\n')
         jobs.append((s * per, path, len(chunk)))
 
     def one(job):
